@@ -223,7 +223,7 @@ def r4(ctx):
         raise AnalysisBroken('C04.R4: drain loop not found')
     for c in pops:
         atoms = [(a[0], a[1]) for a in fn.atoms(c)]
-        want = ('(state == #%d)' % inv['bs_noSignal'], True)
+        want = ('(%s == #%d)' % (fn.P(0), inv['bs_noSignal']), True)
         extra = [a for a in atoms if a != want]
         ok = want in atoms and not extra
         ctx.ob('C04.R4', fn, c, ok, 'drain loop guard', 'guards %s' % atoms)
@@ -274,8 +274,9 @@ def r6(ctx):
     why = []
     for b in breaks:
         atoms = set((a[0], a[1]) for a in fn.atoms(b))
-        legit = any('size()' in k and not p and '==' in k for k, p in atoms) or ('wait', False) in atoms or \
-            (('(ret == #0)', False) in atoms and any('#110' in k and not p for k, p in atoms))
+        legit = any('size()' in k and not p and '==' in k for k, p in atoms) or (fn.P(1), False) in atoms or \
+            (any(k.endswith(' == #0)') and not p and 'size()' not in k for k, p in atoms) and
+             any('#110' in k and not p for k, p in atoms))
         if not legit:
             okall = False
             why.append('break at line %d under %s' % (fn.line_of(b), sorted(atoms)))
